@@ -36,6 +36,7 @@ pub fn gen_min_case(rng: &mut Rng, tier: &str, prop: &str, degenerate: bool) -> 
         alpha_w: if degenerate { [25, 10, 20, 10, 10, 10, 15] } else { [40, 12, 18, 8, 6, 14, 2] },
         min_len: 0,
         dup_pct: 10,
+            tab_desc_pct: 0,
     };
     let records = g.gen(rng);
     let container = gen_container(rng, &records, false, true);
